@@ -8,7 +8,7 @@ use rdp::model::link::{Link, Stream};
 use serde::{Deserialize, Serialize};
 
 pub const LEVEL: &str = "exploration";
-pub const RULE: &str = "case = (sequence of TPKT / fast-path frames, read-chunk schedule, entry point tpkt::Client::read or x224::Client::read). A chunking Read serves the concatenated frames in pieces of the scheduled sizes and counts the bytes it handed out; after every read the payload/kind/security flags must equal the reference deframer's next frame and the consumed-byte count must equal that frame's end offset; a sentinel frame always follows. Frames whose declared length is shorter than their header must be rejected. Sweep section = every TPKT length (all 65536 in thorough; all < 1400 plus strata in quick) and every fast-path length in both forms. bursts: runs of 1..40 frames of one form followed by each minimal frame; long-streams: more than 2^32 bytes of frames through one client (cycling transport). Non-trivial = >= 2 frames with a schedule that splits at least one header, or a zero-payload / undersized frame; distinct by hash of the case.";
+pub const RULE: &str = "case = (sequence of TPKT / fast-path frames, read-chunk schedule, entry point tpkt::Client::read or x224::Client::read). A chunking Read serves the concatenated frames in pieces of the scheduled sizes and counts the bytes it handed out; after every read the payload/kind/security flags must equal the reference deframer's next frame and the consumed-byte count must equal that frame's end offset; a sentinel frame always follows. Frames whose declared length is shorter than their header must be rejected. Sweep section = every TPKT length (all 65536 in thorough; all < 1400 plus strata in quick) and every fast-path length in both forms. transport schedules may contain interruptions (ErrorKind::Interrupted between pieces: nothing consumed, the read is retried); payloads are noise or, for one frame in 32, protocol-looking content (another frame header, also one announcing exactly the payload's own length). bursts: runs of 1..40 frames of one form followed by each minimal frame; long-streams: more than 2^32 bytes of frames through one client (cycling transport). Non-trivial = >= 2 frames with a schedule that splits at least one header, or a zero-payload / undersized frame; distinct by hash of the case.";
 
 #[derive(Serialize, Deserialize, Hash, Clone, Debug)]
 pub enum Frame {
@@ -305,7 +305,12 @@ pub fn decode(s: &mut Src) -> Case {
         v.extend(frames);
         frames = v;
     }
-    let schedule = match s.below(6) {
+    let schedule = match s.below(8) {
+        6 => vec![0, 1 + s.below(7) as u16],
+        7 => {
+            let k = 2 + s.below(5);
+            (0..k).map(|_| if s.chance(80) { 0 } else { 1 + s.small(40) as u16 }).collect()
+        }
         0 => vec![1],
         1 => vec![1 + s.below(7) as u16],
         2 => vec![],
@@ -320,7 +325,7 @@ pub fn decode(s: &mut Src) -> Case {
 
 fn sweep(tier: Tier, part: usize, parts: usize) -> impl Iterator<Item = Case> {
     let mut cases = Vec::new();
-    let scheds: Vec<Vec<u16>> = vec![vec![], vec![7], vec![1, 3, 1500], vec![4096]];
+    let scheds: Vec<Vec<u16>> = vec![vec![], vec![7], vec![1, 3, 1500], vec![4096], vec![0, 1000, 0, 3]];
     // every TPKT length
     let lens: Vec<u32> = match tier {
         Tier::Thorough => (0..65536u32).collect(),
@@ -362,7 +367,7 @@ fn bursts() -> Vec<Case> {
                 frames.push(tail.clone());
                 frames.push(Frame::Fast { first: 0, long: false, len: 5 });
                 frames.push(tail.clone());
-                for (sch, x224) in [(vec![], false), (vec![1u16], false), (vec![3u16, 2], ui % 2 == 0)] {
+                for (sch, x224) in [(vec![], false), (vec![1u16], false), (vec![3u16, 2], ui % 2 == 0), (vec![0u16, 2, 0, 0, 5], ui % 2 == 1)] {
                     v.push(Case { frames: frames.clone(), schedule: sch, x224, fill: (ti * 1000 + k * 10 + ui) as u32 });
                 }
             }
